@@ -29,7 +29,12 @@ RULE = ("Two generated families. (a) closure: C01-style Hypothesis programs on a
         "AttributeError instead of KeyError); attribute get of a protected name returns the very "
         "object object.__getattribute__ returns; item set/get/del of protected/method/dunder names "
         "touch only the data: vars(node) stays identical by identity and inside _PROTECTED_KEYS for "
-        "every attr-dict node, and the object keeps working. Non-trivial = depth>=1, or a "
+        "every attr-dict node, and the object keeps working; re-assigning a protected name's current "
+        "value through attribute syntax never creates a data key and obj.filename = path retargets the "
+        "object (later writes land in the new file). (c) enumerated: two objects of DIFFERENT classes "
+        "of one data type (plain/attr, buffered/memory-buffered siblings) bound to ONE file, "
+        "unbuffered / per-object buffered / class-buffered, both access orders: each object only ever "
+        "contains nodes of its own family. Non-trivial = depth>=1, or a "
         "protected/method/dunder name; distinct by (class, part, key class, op, syntax, depth).")
 ASSUMPTIONS = [
     "attribute set/del of live internals (_data, _root, filename, ...) reconfigures the object by design "
@@ -261,6 +266,52 @@ def run_attr_case(case):
             disk = res.read()
             if disk != model:
                 raise Mismatch("resource", step=n, key=k, op=op, syn=syn, got=disk, expected=model)
+        # protected names always address the object itself, also for attribute SET:
+        # re-assigning the current value must never create a data key
+        for node_path in NODE_PATHS:
+            try:
+                mnode = get_path(model, node_path)
+            except LookupError:
+                continue
+            if not isinstance(mnode, dict):
+                continue
+            node = root
+            for k in node_path:
+                node = node[k]
+            for pname in sorted(prot):
+                try:
+                    cur = object.__getattribute__(node, pname)
+                except AttributeError:
+                    continue
+                try:
+                    setattr(node, pname, cur)
+                except AttributeError:
+                    pass   # read-only property: still the object, not the data
+                if root() != model:
+                    raise Mismatch("protected_attr_set_reached_data", name=pname, path=list(node_path),
+                                   got=root(), expected=model)
+        if case.get("retarget"):
+            p2 = res.path + ".moved"
+            root.filename = p2
+            if root.filename != p2:
+                raise Mismatch("filename_attribute_set_did_not_retarget", got=root.filename)
+            if "filename" in model:
+                pass
+            elif "filename" in root():
+                raise Mismatch("filename_attribute_set_reached_data", got=root())
+            root["after_move"] = 1
+            model["after_move"] = 1
+            import json as _json
+            try:
+                moved = _json.loads(open(p2, "rb").read())
+            except FileNotFoundError:
+                raise Mismatch("write_after_retarget_not_in_new_file")
+            if moved != model:
+                raise Mismatch("write_after_retarget_wrong_content", got=moved, expected=model)
+            del model["after_move"]
+            root.filename = res.path      # back to the original file, which never saw 'after_move'
+            if root() != model:
+                raise Mismatch("content_after_moving_back", got=root(), expected=model)
         # still fully usable
         root["zz_final"] = {"k": 1}
         model["zz_final"] = {"k": 1}
@@ -312,7 +363,96 @@ def _draw_attr_case(draw, cname):
                 syn = "item"      # equivalence is not claimed; item ops must still leave internals alone
         steps.append({"path": enc(list(draw(st.sampled_from(NODE_PATHS)))), "k": k, "op": op,
                       "syn": syn, "v": enc(draw(st.sampled_from([1, "s", None, {"n": [1]}, [1, {"m": 2}], {}])))})
-    return {"property": ID, "engine": "c18attr", "class": cname, "steps": steps}
+    return {"property": ID, "engine": "c18attr", "class": cname, "steps": steps,
+            "retarget": draw(st.booleans())}
+
+
+# ------------------------------------------------------------------ (c) sibling classes on one file
+
+SIBLINGS = [("MemoryBufferedJSONDict", "MemoryBufferedJSONAttrDict"),
+            ("BufferedJSONDict", "BufferedJSONAttrDict"),
+            ("MemoryBufferedJSONList", "MemoryBufferedJSONAttrList"),
+            ("BufferedJSONList", "BufferedJSONAttrList"),
+            ("JSONDict", "JSONAttrDict"), ("JSONList", "JSONAttrList"),
+            ("JSONDict", "BufferedJSONDict"), ("JSONDict", "MemoryBufferedJSONDict"),
+            ("BufferedJSONDict", "MemoryBufferedJSONDict"), ("BufferedJSONList", "MemoryBufferedJSONList")]
+
+
+def _family_ok(obj, ci, where):
+    dc, lc = ci.dict_cls, ci.list_cls
+    stack = [(obj, ())]
+    while stack:
+        node, path = stack.pop()
+        if type(node) not in (dc, lc):
+            raise Mismatch("wrong_family", where=where, root=type(obj).__name__, path=list(path),
+                           got=type(node).__name__)
+        data = node._data
+        for k, v in (data.items() if isinstance(data, dict) else enumerate(data)):
+            if isinstance(v, SyncedCollection):
+                stack.append((v, path + (k,)))
+
+
+def run_sibling_case(case):
+    """Two objects of different classes (same data type) bound to ONE file, each buffered in its own
+    class's way; each must only ever contain nodes of its own family."""
+    a_ci, b_ci = CLASSES[case["a"]], CLASSES[case["b"]]
+    d = wm.case_dir()
+    reset_class_state()
+    try:
+        res = new_resource(a_ci, d)
+        doc = {"a": {"b": {"c": [1, {"d": 1}]}}, "l": [{"x": 1}]} if a_ci.kind == "dict" else [{"a": {"b": [1]}}, [{"x": 1}]]
+        res.write(copy.deepcopy(doc))
+        A, B = res.make(a_ci), res.make(b_ci)
+        order = case["order"]
+        ctxs = []
+        if case["mode"] == "obj":
+            for o in (A, B):
+                if hasattr(o, "buffered"):
+                    c = o.buffered
+                    c.__enter__()
+                    ctxs.append(c)
+        elif case["mode"] == "cls":
+            for ci_ in (a_ci, b_ci):
+                if ci_.buffered:
+                    c = ci_.cls.buffer_backend()
+                    c.__enter__()
+                    ctxs.append(c)
+        objs = [(A, a_ci), (B, b_ci)]
+        if order == "ba":
+            objs.reverse()
+        for rnd in range(2):
+            for o, ci_ in objs:
+                o()
+                _family_ok(o, ci_, f"round {rnd} read")
+            # two different buffers on one file = mixed buffering (unsupported): one writer only then
+            w, wci = objs[rnd % 2] if case["mode"] == "none" else objs[0]
+            if wci.kind == "dict":
+                w["n%d" % rnd] = {"deep": [{"k": rnd}]}
+            else:
+                w.append({"deep": [{"k": rnd}]})
+            for o, ci_ in objs:
+                o()
+                _family_ok(o, ci_, f"round {rnd} after write")
+        from synced_collections.errors import BufferException
+        for c in reversed(ctxs):
+            try:
+                c.__exit__(None, None, None)
+            except BufferException:
+                pass   # conflict between two different buffers on one file: outside the supported domain
+        for o, ci_ in objs:
+            o()
+            _family_ok(o, ci_, "after exit")
+    finally:
+        reset_class_state()
+        shutil.rmtree(d, ignore_errors=True)
+
+
+def _fails_sibling(case):
+    try:
+        run_sibling_case(case)
+    except Mismatch as mm:
+        return mm.describe()
+    return None
 
 
 # ------------------------------------------------------------------ plumbing
@@ -322,6 +462,7 @@ def shards(tier):
     reps = 1 if tier == "quick" else 6
     s = [{"part": "a", "cls": c.name, "rep": r} for c in ALL for r in range(reps)]
     s += [{"part": "b", "cls": n, "rep": r} for n in ATTR_DICTS for r in range(2 * reps)]
+    s += [{"part": "c", "cls": "JSONDict"}]
     return s
 
 
@@ -349,6 +490,19 @@ def run_shard(spec, seed, tier, active):
             acc.failures.append(wm.minimize_world(fail))
         return acc.result()
 
+    if spec["part"] == "c":
+        for (a, b) in SIBLINGS:
+            for x, y in ((a, b), (b, a)):
+                for mode in ("none", "obj", "cls"):
+                    for order in ("ab", "ba"):
+                        case = {"property": ID, "engine": "c18sib", "a": x, "b": y, "mode": mode, "order": order}
+                        d = _fails_sibling(case)
+                        acc.case([h64("c", x, y, mode, order)], case if len(acc.samples) < 2 else None, {"part_c": 1})
+                        if d is not None and len(acc.failures) < 2:
+                            acc.failures.append({"case": case, "desc": d})
+        acc.extra["part_c_exhaustive"] = True
+        return acc.result()
+
     n = 400 if tier == "quick" else 3000
 
     def one_b(data):
@@ -373,4 +527,6 @@ def replay(case):
     wm.EXTRA_ENGINES["famworld"] = FamilyWorld
     if case.get("engine") == "c18attr":
         return _fails_attr(case)
+    if case.get("engine") == "c18sib":
+        return _fails_sibling(case)
     return wm.replay_world(case)
